@@ -166,7 +166,9 @@ def r3_dispatch(ctx):
                 # canonical form: `return {...}` (a temporary that is only returned has been inlined)
                 d = next((s.value for s in stmts if isinstance(s, (ast.Assign, ast.Return)) and isinstance(s.value, ast.Dict)), None)
                 return ast.unparse(d).replace(' ', '').replace('\n', '') if d is not None else ''
-            a, b, c = resp(ifs[0].body), resp(ifs[0].orelse), resp(tr[0].handlers[0].body)
+            # canonical form: the else arm after a returning arm is the rest of the try body
+            rest = ifs[0].orelse or tr[0].body[tr[0].body.index(ifs[0]) + 1:]
+            a, b, c = resp(ifs[0].body), resp(rest), resp(tr[0].handlers[0].body)
             det = f'{a} | {b} | {c}'
             ok = a == "{'response-id':self.path_id,'no-path':{'no-path':self.path_request.blocking_reason}}" and \
                 b == "{'response-id':self.path_id,'no-path':{'no-path':self.path_request.blocking_reason,'path-properties':self.path_properties}}" and \
@@ -259,8 +261,10 @@ def r4_csv(ctx):
         ok = len(mode) == 1 and len(joins) == 2
         if ok:
             b = mode[0]
+            jdefs = local_defs(jp.node)
             hops = [nm for nm, src in joins.items() if any("['num-unnum-hop']['node-id']" in ast.unparse(c) for c in calls_to(jp, {'append'})
-                                                            if ast.unparse(c.func.value) == src)]
+                                                            if ast.unparse(c.func.value) == src) or
+                    any(isinstance(v, ast.ListComp) and "['num-unnum-hop']['node-id']" in ast.unparse(v.elt) for _, v in jdefs.get(src, []))]
             labs = [nm for nm in joins if nm not in hops]
             ok = len(hops) == 1 and len(labs) == 1
             if ok:
